@@ -244,6 +244,21 @@ def run(ctx):
             reqs.append(r)
             oracle.add_same(r, w2)
             nmut += 1
+    # a literal of a 64-bit type that is ONE WORD SHORT (word count 4), followed by one-word instructions that a reader running past the
+    # end of the instruction could swallow; and a correct one followed by the same instructions. The loader may reject, but an accepted
+    # binary must come back with the very same words
+    for tdecl in (instgen.Inst(g.opv["TypeInt"], "TypeInt", None, 1, [instgen.Op("w", g.vix["LiteralBit32"], 64), instgen.Op("w", g.vix["LiteralBit32"], 0)]),
+                  instgen.Inst(g.opv["TypeFloat"], "TypeFloat", None, 1, [instgen.Op("w", g.vix["LiteralBit32"], 64)])):
+        for opname in ("Constant", "SpecConstant"):
+            for tail in ([], [0x00010000 | g.opv["NoLine"]], [0x00010000 | g.opv["Nop"], 0x00010000 | g.opv["NoLine"]],
+                         [0x00030000 | g.opv["Undef"], 1, 8, 0x00010000 | g.opv["NoLine"]], [0x00010000 | g.opv["FunctionEnd"]]):      # (all stay in place: same section)
+                for short in (True, False):
+                    body = [(4 if short else 5) << 16 | g.opv[opname], 1, 2, 7] + ([] if short else [9]) + tail
+                    w2 = instgen.header(version=0x00010300, bound=40) + tdecl.words() + body
+                    r = "loadasm " + instgen.to_bytes(w2).hex()
+                    reqs.append(r)
+                    oracle.add_same(r, w2)
+                    nmut += 1
     stats["operand-word mutants"] = nmut
     # version words: every minor and major byte; the two bytes that are not part of the version are not kept (the header is
     # rebuilt from major.minor and the bound), so the word comes back as 0x00MMmm00
